@@ -38,18 +38,21 @@ type step struct {
 }
 
 type stats struct {
-	behaviours, diverged, completeSteps, totalSteps, reruns, onErr, selfQuiescentEarly, raced int
+	behaviours, diverged, completeSteps, totalSteps, reruns, onErr, selfQuiescentEarly, raced, viaCoord int
 	divergedAt                                                                           map[string]int
 }
 
 // replay drives one fresh scheduler through one behaviour and leaves one trace (Reset .. End).
-func replay(t *rt.Trace, name string, beh []step, rng *rand.Rand, st *stats) {
+func replay(t *rt.Trace, name string, beh []step, coord bool, rng *rand.Rand, st *stats) {
 	if len(beh) == 0 || beh[0].A != "Init" {
 		rt.Fatalf("c17: behaviour %s does not start with Init", name)
 	}
 	wof := beh[0].Wof
 	t.Reset(rt.M{"b": name, "shared": wof[0] == wof[1]})
 	y := newSys(t, wof, func() bool { return rng.Intn(5) == 0 })
+	if coord {
+		y.useCoordinator(rng)
+	}
 	sameWorker := func(a, b int) bool { return wof[a-1] == wof[b-1] }
 
 	diverged := ""
@@ -173,10 +176,13 @@ steps:
 // replayRace uses the same behaviour as a script of environment moves but does NOT wait for the scheduler between
 // them: API calls, clock jumps and execution ends race with the loop and the workers as they may.  Whatever happens
 // is recorded at the moment it happens and the trace specification (which places the unlogged steps freely) decides.
-func replayRace(t *rt.Trace, name string, beh []step, rng *rand.Rand, st *stats) {
+func replayRace(t *rt.Trace, name string, beh []step, coord bool, rng *rand.Rand, st *stats) {
 	wof := beh[0].Wof
 	t.Reset(rt.M{"b": name, "shared": wof[0] == wof[1], "race": true})
 	y := newSys(t, wof, func() bool { return rng.Intn(5) == 0 })
+	if coord {
+		y.useCoordinator(rng)
+	}
 	done := 0
 	for i, s := range beh[1:] {
 		y.where = fmt.Sprintf("%s (race) step %d %+v", name, i+1, s)
@@ -242,6 +248,9 @@ func (y *sys) finish(name string, beh []step, done int, diverged string, st *sta
 	y.within("Stop", func() { y.s.Stop() })
 
 	st.behaviours++
+	if y.co != nil {
+		st.viaCoord++
+	}
 	st.totalSteps += len(beh) - 1
 	st.completeSteps += done
 	if diverged != "" {
@@ -334,9 +343,9 @@ func Run(r *rt.Run) error {
 			rng := rand.New(rand.NewSource(r.Seed*1000 + int64(l)))
 			for i := l; i < len(behs); i += lanes {
 				if race > 0 && i%race == race-1 {
-					replayRace(traces[l], names[i], behs[i], rng, sts[l])
+					replayRace(traces[l], names[i], behs[i], i%3 == 1, rng, sts[l])
 				} else {
-					replay(traces[l], names[i], behs[i], rng, sts[l])
+					replay(traces[l], names[i], behs[i], i%3 == 1, rng, sts[l])
 				}
 				key, _ := json.Marshal(behs[i])
 				traces[l].Distinct(string(key))
@@ -354,6 +363,7 @@ func Run(r *rt.Run) error {
 		tot.onErr += s.onErr
 		tot.selfQuiescentEarly += s.selfQuiescentEarly
 		tot.raced += s.raced
+		tot.viaCoord += s.viaCoord
 		for k, v := range s.divergedAt {
 			tot.divergedAt[k] += v
 		}
@@ -361,6 +371,7 @@ func Run(r *rt.Run) error {
 	r.Extra["behaviours_replayed"] = tot.behaviours
 	r.Extra["behaviours_cut_short_by_a_benign_race_or_deviation"] = tot.diverged
 	r.Extra["behaviours_replayed_without_waiting_(race_mode)"] = tot.raced
+	r.Extra["behaviours_driven_through_the_coordinator"] = tot.viaCoord
 	r.Extra["cut_short_at"] = tot.divergedAt
 	r.Extra["steps_replayed"] = tot.completeSteps
 	r.Extra["steps_in_behaviours"] = tot.totalSteps
